@@ -18,7 +18,12 @@ import datetime
 def cfg_text(sigs, actors, members):
     out = ["role r", "  spotlight true"]
     for s in sigs:
-        out.append("  signal %s %s at %s" % (s["name"], s["typ"], TSRE[s["ts"]] % (s["tag"], s["typ"])))
+        pat = TSRE[s["ts"]] % (s["tag"], s["typ"])
+        if s.get("pos") == 1:
+            pat = pat[:-1] + r"(?: \| .*)?$"
+        elif s.get("pos") == 2:
+            pat = r"^.* \| " + pat[1:]
+        out.append("  signal %s %s at %s" % (s["name"], s["typ"], pat))
     out += ["end", "cast"] + ["  %s plays r" % a for a in actors] + ["end"]
     body = g.config_text({"members": members})
     return "\n".join(out) + "\n" + body
@@ -54,7 +59,50 @@ BADNUM = ["abc", "1.2.3", "--1", "1e", "e5", "0x", "1,5", "1a", "", ".", "+", "1
 EVTXT = ["ok", "hello", "a<b", "x&y", "ok", 'q"t', "done"]
 
 
+def gen_pair_case(rng):
+    """two signals reading the two records of one line `R1 | R2`, each record with its own date"""
+    ts = rng.pick(["deltasecs", "rfc3339", "log", "rfc3339", "log", "now"])
+    sigs = [{"name": "s0", "tag": "p", "typ": rng.pick(["scalar", "delta", "event"]), "ts": ts, "pos": 1},
+            {"name": "s1", "tag": "q", "typ": rng.pick(["scalar", "delta", "event"]), "ts": ts, "pos": 2}]
+    actors = ["a", "b"][:rng.range(1, 2)]
+    members = []
+    for j, s in enumerate(sigs):
+        w = [(a, s["name"]) for a in actors if rng.chance(3, 4)] or [(actors[0], s["name"])]
+        members.append({"name": "o%d" % j, "cond": None, "assigns": [], "expect": None, "watches": w})
+    lines = []
+    t = F(0)
+    for _ in range(rng.range(1, 15)):
+        t += F(rng.range(0, 5), 2)
+        a = rng.pick(actors)
+        recs = []
+        what = "pair"
+        for i, s in enumerate(sigs):
+            k = rng.below(10)
+            val = rng.pick(EVTXT) if s["typ"] == "event" else rng.pick(GOODNUM)
+            if k == 0:
+                val = rng.pick(EVTXT + ["x"]) if s["typ"] == "event" else rng.pick(BADNUM[:4])
+                what = "pair-badvalue"
+            tt = t if i == 0 or rng.chance(1, 4) else t + F(rng.range(1, 8), 2)
+            stamp = fmt_ts(ts, rng, tt, bad=(k == 1))
+            if k == 1 and stamp is not None:
+                what = "pair-baddate"
+            body = "%s=%s" % (s["tag"], val)
+            recs.append(body if stamp is None else stamp + " " + body)
+        k = rng.below(10)
+        if k == 0:
+            lines.append((a, recs[0], "first-record-only"))
+        elif k == 1:
+            lines.append((a, recs[1], "second-record-alone"))
+        elif k == 2:
+            lines.append((a, recs[0] + " | noise | " + recs[1], "three-parts"))
+        else:
+            lines.append((a, recs[0] + " | " + recs[1], what))
+    return sigs, actors, members, lines
+
+
 def gen_case(rng):
+    if rng.chance(1, 5):
+        return gen_pair_case(rng)
     nsig = rng.range(1, 4)
     share = rng.chance(1, 3)
     sigs = []
@@ -124,7 +172,7 @@ def gen_case(rng):
 
 
 def model_tokens_sig(s):
-    return "%s:%s:%d:%s" % (hexs(s["name"]), hexs(s["tag"]), g.TYPCODE[s["typ"]], s["ts"])
+    return "%s:%s:%d:%s" % (hexs(s["name"]), hexs(s["tag"]), g.TYPCODE[s["typ"]], s["ts"]) + (":%d" % s["pos"] if s.get("pos") else "")
 
 
 def mentions(m):
@@ -168,7 +216,7 @@ def row_eq(real, exp):
 
 def run(tier, seed):
     rep = Report(PROP, tier, seed, "proof")
-    rep.assumptions = ["Go's regexp decides whether a pattern matches; the model re-implements matching for the whole-line pattern family only",
+    rep.assumptions = ["Go's regexp decides whether a pattern matches; the model re-implements matching for the record pattern family only (whole line, first record, last record of `R1 | R2`)",
                        "strconv.ParseFloat / time.Parse are modelled for decimal literals and fixed-layout UTC dates",
                        "reception time (ts_now) is only checked to be a wall-clock stamp"]
     try:
@@ -278,4 +326,4 @@ def run(tier, seed):
     impl.close()
     model.close()
     return rep.finish("cd lean && lake build ShkModel.Props.C08 && #print axioms",
-                      "random roles (1-4 signals of all three types and four time-stamp kinds, optionally sharing a tag), 1-3 actors, 1-3 observers and an optional auditor; 0-25 lines mixing clean matches, malformed values, malformed dates, wrong shapes and noise; a case is non-trivial when at least one line matches")
+                      "random roles (1-4 signals of all three types and four time-stamp kinds, optionally sharing a tag), 1-3 actors, 1-3 observers and an optional auditor; 0-25 lines mixing clean matches, malformed values, malformed dates, wrong shapes and noise; one case in five has two signals reading the two records of lines `R1 | R2` with their own dates; a case is non-trivial when at least one line matches")
